@@ -17,17 +17,7 @@ Section Ts.
     end.
 
   (** the local name of a struct with its type arguments: S_A_B *)
-  Definition struct_ts_name (id : string) : string :=
-    match find_type id (pr_types pr) with
-    | Some d => fold_left (fun acc a => acc ++ "_" ++ match a with
-                                                       | GNamed aid => local_name_of pr aid
-                                                       | GBasic k => match k with
-                                                                     | KBool => "bool" | KInt => "int" | KInt8 => "int8" | KInt16 => "int16" | KInt32 => "int32" | KInt64 => "int64"
-                                                                     | KUint => "uint" | KUint8 => "uint8" | KUint16 => "uint16" | KUint32 => "uint32" | KUint64 => "uint64"
-                                                                     | KFloat32 => "float32" | KFloat64 => "float64" | KString => "string" | _ => "?" end
-                                                       | _ => "?" end) (n_targs d) (n_name d)
-    | None => id
-    end.
+  Definition struct_ts_name (id : string) : string := inst_name pr id.
 
   (** typeName *)
   Fixpoint ts_ref (fuel : nat) (t : gty) : result texpr :=
